@@ -171,6 +171,51 @@ def gen_family(rng, k):
     return fam
 
 
+def gen_reduce_family(rng):
+    """The SAME reduction over the SAME many-block input, built with different split_every (keyword, or the
+    `split_every` config key in force at construction), every one kept alive, computed in both orders.
+    Returns (family, steps)."""
+    n = rng.choice([8, 9, 12, 16, 16])
+    nd = rng.choice([1, 1, 2])
+    shape = [n] + ([rng.randint(2, 3)] if nd == 2 else [])
+    chunks = [[1] * n] + ([[shape[1]]] if nd == 2 else [])
+    if rng.random() < 0.3:
+        chunks[0] = [2] * (n // 2) + ([1] if n % 2 else [])
+    base = [{"op": "src", "shape": shape, "chunks": chunks, "mul": rng.choice([1, 3, 7]), "off": rng.randint(-5, 5), "mod": 1 << 40, "out": "v1"}]
+    cur = "v1"
+    if rng.random() < 0.5:
+        base.append({"op": rng.choice(["affine", "sq", "neg"]), "args": ["v1"], "out": "v2"})
+        cur = "v2"
+    fn = rng.choice(["sum", "sum", "max", "min"])
+    axis = rng.choice([0, 0, None]) if nd == 2 else rng.choice([0, None])
+    keep = rng.random() < 0.3
+    ses = rng.sample([2, 3, 4, 8, 16, "cfg2", "cfg4", "cfg3"], rng.randint(3, 5))
+    fam, steps = [], []
+    for i, se in enumerate(ses):
+        kw = None if isinstance(se, str) else se
+        fam.append([dict(st) for st in base] + [{"op": "reduce", "fn": fn, "args": [cur], "axis": axis, "keepdims": keep, "split_every": kw, "out": "v9"}])
+    order = list(range(len(ses)))
+    rng.shuffle(order)
+    in_cfg = False
+    for i in order:
+        if isinstance(ses[i], str):
+            steps.append(["cfg", {"split_every": int(ses[i][3:])}])
+            in_cfg = True
+        elif in_cfg and rng.random() < 0.5:
+            steps.append(["cfg", {}])
+            in_cfg = False
+        steps.append(["build", i])
+        if rng.random() < 0.7:
+            steps.append(["compute", i, "root", 0])
+        elif rng.random() < 0.5:
+            steps.append(["graph", i])
+    if in_cfg and rng.random() < 0.7:
+        steps.append(["cfg", {}])
+    for i in reversed(order):  # everything is still alive: compute all, in the opposite order
+        steps.append(["compute", i, "root", 0])
+    return fam, steps
+
+
 def gen_history(rng, fam):
     """Seeded random interleaving of build / graph / compute / persist / derived / drop / cfg steps."""
     steps = []
@@ -659,7 +704,8 @@ def run(ctx, replay=None):
     ctx.rule = (
         "histories: families of 3-6 generated programs sharing a common prefix (some rebuilt identically, some with "
         "exact-name sources), seeded random interleavings of build / __dask_graph__ / compute (root or inner variable) / "
-        "persist / derived op / drop / config change, each history started from cleared `_LOWER_CACHE` + singleton "
+        "persist / derived op / drop / config change (every 4th history: the SAME reduction over the same many-block input built with "
+        "different split_every — keyword or config — all kept alive and computed in both orders), each history started from cleared `_LOWER_CACHE` + singleton "
         "registries (epochs of several histories in the thorough tier); config crossing: points drawn from the product of "
         f"{len(CONFIG_DOMAIN)} keys x 4 timing modes (construct-only, compute-only, both, changed between construction / "
         "first compute / second compute / rebuild); a case is distinct by (phase, action or mode, keys set, family size)"
@@ -695,8 +741,12 @@ def run(ctx, replay=None):
         if time.time() - t_run > budget_h:
             ctx.notes["histories_stopped_early_at"] = it
             break
-        fam = gen_family(rng, rng.randint(3, 6))
-        steps = gen_history(rng, fam)
+        if it % 4 == 3:
+            fam, steps = gen_reduce_family(rng)
+            ctx.notes["reduce_family_histories"] = ctx.notes.get("reduce_family_histories", 0) + 1
+        else:
+            fam = gen_family(rng, rng.randint(3, 6))
+            steps = gen_history(rng, fam)
         case = {"kind": "history", "progs": fam, "steps": steps, "prelude": []}
         if ctx.tier == "thorough" and epoch and rng.random() < 0.5:
             case["prelude"] = epoch[-2:]
